@@ -27,7 +27,7 @@ CHECKS = {
    "Faults that never reached Create are not counted as delivered. Sampled, not exhaustive.", "4 (C05)"),
  "C12": ("zipsim", "deterministic simulation with at-rest fault injection: hostile and damaged archives extracted by the real Unzip into a five-level sentinel sandbox snapshotted before and after; reference restriction checker decides what the zip check must refuse",
    "Seeded archives from three sources (harness-built with hostile names, prefixes, directory entries and mode bits, lying and overflowing declared sizes; Create output truncated / bit-flipped / size-patched; intact Create output) against targets that are missing, empty, non-empty, a file or under a missing parent. Oracles: nothing outside the target changes; CheckZip never accepts an archive that violates a documented restriction; Unzip succeeds exactly when CheckZip accepts, for every archive; Unzip never succeeds on data that contradict their declarations; the extracted tree equals the entries.",
-   "Failures of Unzip's MkdirAll/OpenFile/Close are not injected (no seam); its listing of the target directory is behind a verif-tagged seam (zip.SimReadDir). An entry is a directory entry iff its name ends in a slash. One genuine defect (F2: CheckZip accepts archives whose entry data contradict their declared size or checksum, Unzip refuses them) is recorded in known_findings.json and reported as KNOWN-FINDING, exit 0; any other violation is reported.", "4 (C12), 8"),
+   "Failures of Unzip's MkdirAll/OpenFile/Close are not injected (no seam); its listing of the target directory is behind a verif-tagged seam (zip.SimListing). An entry is a directory entry iff its name ends in a slash. One genuine defect (F2: CheckZip accepts archives whose entry data contradict their declared size or checksum, Unzip refuses them) is recorded in known_findings.json and reported as KNOWN-FINDING, exit 0; any other violation is reported.", "4 (C12), 8"),
  "C17": ("zipsim", "simulation of the file-listing environment (listing order, Lstat results, go.mod read results, real-file-system materialisation) against a reference classifier written from the documented rules",
    "Seeded trees over an adversarial alphabet (case-fold orbits, vendor layouts, nested go.mod in any case, reserved/ill-formed/unclean/absolute names, duplicates, file/dir clashes, irregular modes, sizes at the limits, go versions absent/old/new/unparsable/unreadable) checked with CheckFiles in 3-6 listing orders: exactly-one-list, class by the documented rules (all readings accepted where the documentation is silent), colliding pairs never both valid, order independence; half of the runs compare CreateFromDir/CheckDir with Create/CheckFiles on a materialised tree.",
    "Weak fit: no fault surface beyond listing order and Lstat/read results; the deciding part is the comparison with the reference classifier.", "4 (C17)"),
